@@ -85,7 +85,7 @@ impl Prop for C03 {
         "C03"
     }
     fn rule(&self) -> String {
-        "generated transition systems biased to be unsafe (bad depth 0-5; bit-vector and array states for BMC, bit-vector states for PDR); bmc (individually / jointly) and pdr (cores on/off) run against the reference solver under 3 model seeds each and random solver profiles. Every ModelCheckResult::Fail witness is replayed in the reference simulator: one init value per state in system order with the system's names and types; init-ed states equal their init expressions over the witnessed values; one value per input per step with the system's names and widths; all constraints hold at every step (existentially over values of next-less states, which the format cannot carry); at the last step >= 1 bad state holds and failed_safety is exactly the set that holds; and also driven through patronus::sim::Interpreter (bit-vector systems with next functions). Non-trivial: witness of length >= 2 with >= 1 input, or with an array state, and >= 2 distinct models seen for the same system; distinct by hash of the witness.".into()
+        "generated transition systems biased to be unsafe (bad depth 0-6; bit-vector and array states for BMC, bit-vector states for PDR) plus one in five of the safe ones (where any reported failure is a bogus counterexample); bmc (individually / jointly) and pdr (cores on/off) run against the reference solver under 3 model seeds each and random solver profiles. Every ModelCheckResult::Fail witness is replayed in the reference simulator: one init value per state in system order with the system's names and types; init-ed states equal their init expressions over the witnessed values; one value per input per step with the system's names and widths; all constraints hold at every step (existentially over values of next-less states, which the format cannot carry); at the last step >= 1 bad state holds and failed_safety is exactly the set that holds; and also driven through patronus::sim::Interpreter (bit-vector systems with next functions). Non-trivial: witness of length >= 2 with >= 1 input, or with an array state, and >= 2 distinct models seen for the same system; distinct by hash of the witness.".into()
     }
     fn budget(&self, tier: Tier) -> Budget {
         match tier {
@@ -122,10 +122,20 @@ impl Prop for C03 {
         let text = show_system(&case.ctx, &case.sys);
         let sim = RefSim::new(&case.ctx, &case.sys);
         let reach = reachability(&sim).map_err(|m| Failure::new("harness/c03-reach", m))?;
-        let Some(depth) = reach.min_any_bad() else {
-            rec.exclude("system is safe (no witness to check)");
+        // safe systems take part too: a checker that reports a failure there has, by definition, handed
+        // out a witness that is not an execution (one in five is kept; the bound is then arbitrary)
+        let safe = reach.min_any_bad().is_none();
+        if safe && (seed0 % 5 != 0 || (use_pdr && reach.diameter > 8)) {
+            rec.exclude("system is safe (4 of 5 sub-sampled away; PDR only up to diameter 8)");
             return Ok(());
-        };
+        }
+        if safe {
+            rec.label("safe-system (any reported failure is bogus)");
+        }
+        if case.sys.states.iter().any(|s| s.init.is_some() && s.init == s.next && crate::refeval::lit_value(&case.ctx, s.init.unwrap()).is_none()) {
+            rec.label("system with a re-loaded state (init == next, not a literal)");
+        }
+        let depth = reach.min_any_bad().unwrap_or(1 + (cfg_bytes[3] as u32 / 3) % 5);
         if depth > 6 {
             rec.exclude("bad depth > 6");
             return Ok(());
